@@ -15,8 +15,47 @@ package app
 //@   opaque alertmanager/ go.opentelemetry
 //@   ensures [rejected-reload-touches-nothing] result != nil ==> !called("inhibit.Inhibitor).Stop") && !called("dispatch.Dispatcher).Stop")
 //@             && !called("Inhibitor]).Store") && !called("Dispatcher]).Store") && !called("api.API).Update") && !called("Recorder).ApplyConfig")
+//@   ensures [template-error-rejects] called("template.FromGlobs") && ret1("template.FromGlobs") != nil ==> result != nil
+//@   ensures [receiver-error-rejects] called("BuildReceiverIntegrations") && ret1("BuildReceiverIntegrations") != nil ==> result != nil
+//@   loop 1 invariant called("BuildReceiverIntegrations") ==> ret1("BuildReceiverIntegrations") == nil
+//@   ensures [tracing-error-rejects] called("Manager).ApplyConfig") && ret("Manager).ApplyConfig") != nil ==> result != nil
+//@   at call inhibit.Inhibitor).Stop assert [stop-the-running-inhibitor] arg0 != nil && arg0 == ret("Inhibitor]).Load")
+//@   at call dispatch.Dispatcher).Stop assert [stop-the-running-dispatcher] arg0 != nil && arg0 == ret("Dispatcher]).Load")
+//@   ensures [running-components-stopped] result == nil ==> (first("Dispatcher]).Load") != nil ==> called("dispatch.Dispatcher).Stop")) && (first("Inhibitor]).Load") != nil ==> called("inhibit.Inhibitor).Stop"))
+//@   at call PipelineBuilder).New assert [pipeline-receivers] arg1 == receivers
+//@   at call PipelineBuilder).New assert [pipeline-inhibitor] arg3 == ret("inhibit.NewInhibitor")
+//@   at call PipelineBuilder).New assert [pipeline-silencer] arg4 == cell(r).silencer
+//@   at call PipelineBuilder).New assert [pipeline-intervener] arg5 == ret("timeinterval.NewIntervener")
+//@   at call PipelineBuilder).New assert [pipeline-log] arg7 == cell(r).notificationLog
+//@   at call PipelineBuilder).New assert [every-routed-receiver-has-integrations] forall k int :: 0 <= k && k < len(conf.Receivers) && (conf.Receivers[k].Name in activeReceivers) ==> (conf.Receivers[k].Name in receivers)
+//@   at call timeinterval.NewIntervener assert [every-named-interval-known] (forall k int :: 0 <= k && k < len(conf.MuteTimeIntervals) ==> (conf.MuteTimeIntervals[k].Name in arg0)) && (forall k int :: 0 <= k && k < len(conf.TimeIntervals) ==> (conf.TimeIntervals[k].Name in arg0))
+//@   at call dispatch.NewDispatcher assert [dispatcher-routes] arg1 == ret("dispatch.NewRoute")
+//@   at call dispatch.NewDispatcher assert [dispatcher-pipeline] typeis(arg2, notify.RoutingStage) && unbox(arg2, notify.RoutingStage) == ret("PipelineBuilder).New")
+//@   loop 1 invariant rangeindex < len(conf.Receivers)
+//@   loop 1 invariant forall k int :: 0 <= k && k <= rangeindex && (conf.Receivers[k].Name in activeReceivers) ==> (conf.Receivers[k].Name in receivers)
+//@   loop 2 invariant rangeindex < len(conf.MuteTimeIntervals) && fresh(timeIntervals) && (forall k int :: 0 <= k && k <= rangeindex ==> (conf.MuteTimeIntervals[k].Name in timeIntervals))
+//@   loop 2 invariant forall k int :: 0 <= k && k < len(conf.Receivers) && (conf.Receivers[k].Name in activeReceivers) ==> (conf.Receivers[k].Name in receivers)
+//@   loop 3 invariant rangeindex < len(conf.TimeIntervals) && fresh(timeIntervals) && (forall k int :: 0 <= k && k < len(conf.MuteTimeIntervals) ==> (conf.MuteTimeIntervals[k].Name in timeIntervals)) && (forall k int :: 0 <= k && k <= rangeindex ==> (conf.TimeIntervals[k].Name in timeIntervals))
+//@   loop 3 invariant forall k int :: 0 <= k && k < len(conf.Receivers) && (conf.Receivers[k].Name in activeReceivers) ==> (conf.Receivers[k].Name in receivers)
+//@   noeffect BuildReceiverIntegrations Logger).Info Logger).With Manager).ApplyConfig Recorder).ApplyConfig Inhibitor).Stop Dispatcher).Stop inhibit.NewInhibitor timeinterval.NewIntervener ]).Load Gauge).Set
 //@   ensures [success-publishes-both] result == nil ==> called("Inhibitor]).Store") && called("Dispatcher]).Store") && called("api.API).Update")
 //@   at call inhibit.Inhibitor).Stop assert [tracing-applied-before-stopping] called("Manager).ApplyConfig") && ret("Manager).ApplyConfig") == nil
 //@   at call dispatch.Dispatcher).Stop assert [tracing-applied-before-stopping-dispatcher] called("Manager).ApplyConfig") && ret("Manager).ApplyConfig") == nil
 //@   at call Dispatcher]).Store assert [dispatcher-published-after-loading] called("Dispatcher).WaitForLoading")
 //@   at call Inhibitor]).Store assert [inhibitor-published-after-loading] called("Inhibitor).WaitForLoading")
+
+// the status callback handed to the API consults both muters (inhibitor first, then silencer), so the status the API
+// reports is the one the pipeline's mute stages would compute
+//@ func (*reloader).reload$2
+//@   props C02 C03
+//@   nosafe
+//@   ensures [both-muters-consulted] called("Inhibitor).Mutes") && called("Silencer).Mutes")
+//@   at call Silencer).Mutes assert [same-alert] arg2 == labels
+//@   at call Inhibitor).Mutes assert [same-alert-inhibitor] arg2 == labels
+//@   noeffect Inhibitor).Mutes Silencer).Mutes
+// every route of the new tree marks its receiver as in use (so its integrations get built)
+//@ func (*reloader).reload$1
+//@   props C17 C07
+//@   requires rt != nil && activeReceivers != nil && deref(activeReceivers) != nil
+//@   ensures [receiver-marked] rt.RouteOpts.Receiver in deref(activeReceivers)
+//@   ensures [others-kept] forall k string :: old(k in deref(activeReceivers)) ==> (k in deref(activeReceivers))
